@@ -16,7 +16,7 @@ PROP = {
              "frames_completed, the joypad request of C17) the LCD sits at the closed-form schedule position of the delivered clock "
              "total and has counted delivered / 70224 frames after every step of every run from power-on, whatever the program does "
              "(frame lemma over all 90 Op variants: the bus changes only through writes, and no write touches the LCD's timing "
-             "state); (crosses_frame, run_frame_terminates, run_frame_terminates_blockstep) hence Core::run_frame (which, since "
+             "state); (crosses_frame, run_frame_terminates, run_frame_terminates_blockstep, run_frame_steps_le: at most 17556 steps per call) hence Core::run_frame (which, since "
              "/repo c28667b, waits for the LCD's count of completed frames to change) returns within one frame period plus one step "
              "under instruction stepping AND block stepping with NO bound on the block length and NO assumption left about the "
              "devices; (run_frame_terminates_partial, _update, _blocks) the same for any device function whose frame counter is "
